@@ -45,6 +45,11 @@ def corpus():
         "plan 0 scenario=73,maxdur=10000000000,conc=2,maxit=0,igndrop=1 mode=%s dur=5,conc=0" % hx("users"),
         "plan 0 scenario=73,maxdur=10000000000,conc=2,maxit=0,igndrop=1 mode=%s,conc=0 dur=5" % hx("users"),   # default concurrency 0 inherited
         "plan 0 scenario=73,maxdur=10000000000,conc=2,maxit=0,igndrop=1 mode=%s,conc=-3 dur=5" % hx("users"),
+        # D17: a gaussian profile nobody can derive a rate for (window covers none of the bell; weights summing to zero)
+        "plan 0 scenario=73,maxdur=10000000000,conc=2,maxit=0,igndrop=1 - mode=%s,dur=1000000000,volume=1000,repeat=600000000000,freq=1000000000,peak=3600000000000,weights=-,stddev=60000000000,dist=%s" % (hx("gaussian"), hx("none")),
+        "plan 0 scenario=73,maxdur=10000000000,conc=2,maxit=0,igndrop=1 - mode=%s,dur=1000000000,volume=1000,repeat=600000000000,freq=1000000000,peak=300000000000,weights=%s,stddev=60000000000,dist=%s" % (hx("gaussian"), hx("0,0"), hx("regular")),
+        "calc.gaussian 1000000000 1800000000000 %s %s" % (hx("0"), hx("none")),
+        "calc.gaussian 1000000000 1800000000000 %s %s" % (hx("1,-1"), hx("random")),
         "gaussvol %s %d %d" % (hx("3/1500us"), 50400 * _plan.S, 9000 * _plan.S),     # units with a fractional-millisecond part
         "gaussvol %s %d %d" % (hx("1/500us"), 50400 * _plan.S, 9000 * _plan.S),
         "gaussvol %s %d %d" % (hx("7/s"), 50400 * _plan.S, 9000 * _plan.S),
